@@ -157,8 +157,9 @@ class Cursor(Abstract):
         return self.mq(self.cur)
 
     def m_block_quality(self, I):
+        # on an exhausted posting reader block_quality() still answers (stale block header):
+        # no `active` precondition, the value is only meaningful (bq >= sc) at an entry
         self.need_quality(I, "block_quality")
-        self.need_active(I, "block_quality")
         return self.bq(self.cur)
 
     def m_skip_to_quality(self, I, q):
@@ -187,8 +188,9 @@ class Cursor(Abstract):
         s = z3.Int(I.fresh_name("s"))
         I.assume(z3.ForAll([s], z3.Implies(m.S(s), z3.And(self.S(s), s >= self.cur))))
         I.assume(z3.ForAll([s], z3.Implies(z3.And(self.S(s), s >= self.cur, z3.Or(q == 0, self.sc(s) > q)), m.S(s))))
-        I.assume(z3.ForAll([s], z3.Implies(m.S(s), z3.And(m.sc(s) == self.sc(s), m.wt(s) == self.wt(s),
-                                                           m.val(s) == self.val(s)))))
+        I.assume(z3.ForAll([s], z3.Implies(m.S(s), z3.And(
+            z3.Or(m.sc(s) == self.sc(s), z3.And(q != 0, self.sc(s) <= q, m.sc(s) <= q)),
+            m.wt(s) == self.wt(s), m.val(s) == self.val(s)))))
         I.assume(z3.ForAll([s], z3.Implies(m.S(s), s >= m.cur)))
         I.assume(z3.Implies(self.sbq, m.sbq))
         return m
@@ -213,7 +215,9 @@ class Cursor(Abstract):
 
 # ----------------------------------------------------------------- views
 
-VIEWS = {}   # class key -> dict(mem=fn(I,obj,s), sc=fn(I,obj,s), pos=fn(I,obj), inv=fn(I,obj))
+VIEWS = {"whoosh.matching.mcore:NullMatcherClass": dict(
+    mem=lambda I, o, s: z3.BoolVal(False), sc=lambda I, o, s: z3.RealVal(0), pos=lambda I, o: INF,
+    inv=lambda I, o: z3.BoolVal(True), sbq=lambda I, o: z3.BoolVal(True))}   # class key -> dict(mem=fn(I,obj,s), sc=fn(I,obj,s), pos=fn(I,obj), inv=fn(I,obj))
 
 
 def view_of(obj):
@@ -271,6 +275,26 @@ def none_in(I, m, lo, hi):
     return z3.ForAll([s], z3.Implies(z3.And(mem(I, m, s), s >= to_z3(lo)), s >= to_z3(hi)))
 
 
+def rem(I, m, s):
+    """s is in the remaining list of m (member at or after the position)."""
+    s = to_z3(s)
+    return z3.And(mem(I, m, s), s >= pos(I, m))
+
+
+def replaces(I, res, old, q):
+    """res is a valid replace(q) of old (old = pre-state object): remaining
+    list is a sub-list keeping every entry scoring > q (all if q == 0), with
+    equal scores (an entry that cannot beat q may be kept with any score <= q)."""
+    s = z3.Int(I.fresh_name("s"))
+    q = _real(q)
+    return z3.And(
+        z3.ForAll([s], z3.Implies(rem(I, res, s), rem(I, old, s))),
+        z3.ForAll([s], z3.Implies(z3.And(rem(I, old, s), z3.Or(q == 0, score_at(I, old, s) > q)), rem(I, res, s))),
+        z3.ForAll([s], z3.Implies(rem(I, res, s), z3.Or(
+            score_at(I, res, s) == score_at(I, old, s),
+            z3.And(q != 0, score_at(I, old, s) <= q, score_at(I, res, s) <= q)))))
+
+
 def supports_quality(I, m):
     if isinstance(m, Cursor):
         return m.sbq
@@ -282,6 +306,6 @@ def supports_quality(I, m):
 
 for _n, _f in [("mem", mem), ("score_at", score_at), ("pos", pos), ("position", pos), ("minv", minv), ("active", active),
                ("wfpos", wfpos), ("behind_free", behind_free), ("none_in", none_in),
-               ("supports_quality", supports_quality)]:
+               ("supports_quality", supports_quality), ("rem", rem), ("replaces", replaces)]:
     B.SPEC_FUNCS[_n] = SpecFn(_n, _f)
 B.SPEC_FUNCS["INF"] = INF
